@@ -16,6 +16,7 @@ type exprContext struct {
 	root             store.Cursor
 	result           Result
 	contextPosition  int
+	contextSize      int
 	builtinFunctions map[XmlName]Function
 	ContextSettings
 }
@@ -23,6 +24,7 @@ type exprContext struct {
 type Context interface {
 	Result() Result
 	ContextPosition() int
+	ContextSize() int
 }
 
 func (c *exprContext) Result() Result {
@@ -33,11 +35,16 @@ func (c *exprContext) ContextPosition() int {
 	return c.contextPosition
 }
 
+func (c *exprContext) ContextSize() int {
+	return c.contextSize
+}
+
 func (e *exprContext) copy() exprContext {
 	return exprContext{
 		root:             e.root,
 		result:           e.result,
 		contextPosition:  e.contextPosition,
+		contextSize:      e.contextSize,
 		builtinFunctions: builtinFunctions,
 		ContextSettings:  e.ContextSettings,
 	}
